@@ -30,6 +30,7 @@ type Env struct {
 	inOld      bool
 	inQuant    int
 	lemmaFrame *Frame
+	upTo       int
 }
 
 type symHeap struct {
@@ -38,7 +39,7 @@ type symHeap struct {
 }
 
 func (f *Frame) envAt(b *ssa.BasicBlock, h *HeapState, over map[ssa.Value]Val) *Env {
-	return &Env{g: f.g, f: f, at: b, heap: h, old: f.entry, bind: map[string]Val{}, over: over, pkg: f.fn.Pkg.Pkg, reach: f.curReach}
+	return &Env{g: f.g, f: f, at: b, heap: h, old: f.entry, bind: map[string]Val{}, over: over, pkg: f.fn.Pkg.Pkg, reach: f.curReach, upTo: -1}
 }
 
 func (e *Env) fail(format string, a ...interface{}) {
@@ -330,7 +331,7 @@ func (e *Env) ident(name string) Val {
 					return e.f.args[i]
 				}
 				// a parameter may have been reassigned: prefer the resolved local if there is one
-				if nd, ok := e.f.resolveName(name, e.at); ok {
+				if nd, ok := e.f.resolveNameAt(name, e.at, e.upTo); ok {
 					return e.fromDef(nd)
 				}
 				return e.f.args[i]
@@ -344,7 +345,7 @@ func (e *Env) ident(name string) Val {
 			}
 		}
 		if e.at != nil {
-			if nd, ok := e.f.resolveName(name, e.at); ok {
+			if nd, ok := e.f.resolveNameAt(name, e.at, e.upTo); ok {
 				return e.fromDef(nd)
 			}
 		}
